@@ -279,7 +279,9 @@ def parse_rect(o: Any) -> Rect:
     try:
         (x0, y0, x1, y1) = o
         return float(x0), float(y0), float(x1), float(y1)
-    except (ValueError, TypeError):
+    except (ValueError, TypeError, OverflowError, KeyError):
+        # OverflowError: an integer of hundreds of digits; KeyError: a stream
+        # (iterating it looks up the key 0)
         raise PDFValueError("Could not parse rectangle")
 
 
